@@ -202,3 +202,46 @@ def canonSeries (es : List Entry) : List (Labels × List Nat) :=
   es.foldr (fun e acc => insertEntry e.1 (e.2.map (·.id)) acc) []
 
 end Thanos.StoreSpec
+
+/-! ### request limits (C09): what `BucketStore.Series` reserves, without lazy expanded postings -/
+
+namespace Thanos.StoreSpec
+open Thanos.Labels
+
+/-- `blockSeriesClient.ExpandPostings`: the series limiter is charged the number of expanded postings — every
+    series of the block that satisfies the residual matchers, whatever its chunks — `0` when there is no
+    residual matcher or the block's external labels are contradicted -/
+def blockSeriesReserved (b : Block) (r : Req) : Nat :=
+  match filterExt b.ext r.matchers with
+  | none => 0
+  | some [] => 0
+  | some ms => (b.series.filter fun s => matchesAll ms s.lset).length
+
+/-- `blockSeriesClient.nextBatch`: the chunks limiter is charged the chunk metas in range of every served series -/
+def blockChunksReserved (R : List Nat) (b : Block) (r : Req) : Nat :=
+  if r.skipChunks then 0 else ((blockSeries R b r).map (fun e => e.2.length)).sum
+
+def selected (blocks : List Block) (r : Req) : List Block := blocks.filter (blockOverlaps · r.mint r.maxt)
+
+def seriesReserved (blocks : List Block) (r : Req) : Nat :=
+  ((selected blocks r).map (blockSeriesReserved · r)).sum
+
+def chunksReserved (blocks : List Block) (r : Req) : Nat :=
+  ((selected blocks r).map (blockChunksReserved r.without · r)).sum
+
+inductive Limited (α : Type) where
+  | ok (a : α)
+  | exhausted
+  deriving Repr
+
+/-- the limiters see one reservation per block (series) and per served series (chunks), in some order; the
+    request fails iff a reservation is refused, which depends on the sums only (`Props/C09`) -/
+def bucketSeriesLimited (seriesLimit chunksLimit : Nat) (blocks : List Block) (r : Req) : Limited (List Entry) :=
+  if seriesLimit ≠ 0 ∧ seriesReserved blocks r > seriesLimit then .exhausted
+  else if chunksLimit ≠ 0 ∧ chunksReserved blocks r > chunksLimit then .exhausted
+  else .ok (bucketSeries blocks r)
+
+def countSeries (es : List Entry) : Nat := (canonSeries es).length
+def countChunks (es : List Entry) : Nat := ((canonSeries es).map (fun e => e.2.length)).sum
+
+end Thanos.StoreSpec
